@@ -26,9 +26,85 @@ def T(name, path, old, new):
     return V(name, "twin", [(path, old, new)])
 
 
+def D(name, kind, difftext, expect=None):
+    """Variant given as a unified diff (a kept seed or a benign refactoring)."""
+    return V(name, kind, [("@diff", difftext, None)], expect)
+
+
+def apply_diff(sources, text):
+    """Apply a unified diff to the in-memory sources; None if a hunk does not fit."""
+    import re
+    out = dict(sources)
+    cur = None
+    hunks = {}
+    lines = text.splitlines()
+    i = 0
+    while i < len(lines):
+        ln = lines[i]
+        if ln.startswith("+++ "):
+            path = ln[4:].split("\t")[0].strip()
+            if path.startswith("b/"):
+                path = path[2:]
+            cur = path
+            hunks.setdefault(cur, [])
+        elif ln.startswith("@@") and cur is not None:
+            m = re.match(r"@@ -(\d+)(?:,(\d+))? \+(\d+)(?:,(\d+))? @@", ln)
+            if not m:
+                return None
+            old, new = [], []
+            i += 1
+            while i < len(lines) and not lines[i].startswith(("@@", "diff --git", "--- ")):
+                h = lines[i]
+                if h.startswith("\\"):
+                    pass
+                elif h.startswith("+"):
+                    new.append(h[1:])
+                elif h.startswith("-"):
+                    old.append(h[1:])
+                else:
+                    old.append(h[1:] if h.startswith(" ") else h)
+                    new.append(h[1:] if h.startswith(" ") else h)
+                i += 1
+            hunks[cur].append((int(m.group(1)), old, new))
+            continue
+        i += 1
+    for path, hs in hunks.items():
+        if path == "/dev/null" or not hs:
+            continue
+        if path not in out and not (path.startswith("src/waitress/") and path.endswith(".py")):
+            continue  # tests / packaging files are not part of the analysed program
+        if path not in out:
+            # new file
+            if all(not h[1] for h in hs):
+                out[path] = "\n".join(sum((h[2] for h in hs), [])) + "\n"
+                continue
+            return None
+        src = out[path].split("\n")
+        delta = 0
+        for (start, old, new) in hs:
+            pos = start - 1 + delta
+            cands = [pos] + [pos + d for k in range(1, 60) for d in (k, -k)]
+            hit = None
+            for c in cands:
+                if 0 <= c <= len(src) - len(old) and src[c:c + len(old)] == old:
+                    hit = c
+                    break
+            if hit is None:
+                return None
+            src[hit:hit + len(old)] = new
+            delta += len(new) - len(old) + (hit - pos)
+        out[path] = "\n".join(src)
+    return out
+
+
 def apply(sources, v):
     out = dict(sources)
     for p in v.patches:
+        if p[0] == "@diff":
+            out = apply_diff(out, p[1])
+            if out is None:
+                return None
+            continue
         path, old, new = p[0], p[1], p[2]
         full = path if path in out else "src/waitress/" + path
         if full not in out:
@@ -36,6 +112,28 @@ def apply(sources, v):
         if out[full].count(old) != 1:
             return None
         out[full] = out[full].replace(old, new)
+    return out
+
+
+def corpus_variants(prop):
+    """The kept corpora as variants: every confirmed seed of this property
+    (/verif/seeded/<prop>-*/patch.diff, must be detected) and every confirmed
+    behaviour-preserving refactoring (/verif/benign/*.diff, must stay silent)."""
+    root = os.path.dirname(os.path.dirname(os.path.abspath(__file__)))
+    out = []
+    sd = os.path.join(root, "seeded")
+    if os.path.isdir(sd):
+        for d in sorted(os.listdir(sd)):
+            pth = os.path.join(sd, d, "patch.diff")
+            if d.split("-")[0] == prop and os.path.isfile(pth):
+                with open(pth, encoding="utf-8") as fh:
+                    out.append(D("seed:" + d, "mutant", fh.read()))
+    bd = os.path.join(root, "benign")
+    if os.path.isdir(bd):
+        for fn in sorted(os.listdir(bd)):
+            if fn.endswith(".diff"):
+                with open(os.path.join(bd, fn), encoding="utf-8") as fh:
+                    out.append(D("benign:" + fn[:-5], "twin", fh.read()))
     return out
 
 
@@ -56,7 +154,7 @@ def _run_variant(args):
 
 def run_selftest(prop, mod, program, rep):
     rid = prop + ".selftest"
-    variants = list(mod.selftest)
+    variants = list(mod.selftest) + corpus_variants(prop)
     rep.rule(rid, "checker self-test: mutants must add a violation, benign twins must not change the verdict")
     base_vio = {(v["rule"], v["key"]) for v in rep.violations}
     jobs = []
